@@ -159,21 +159,45 @@ func build(ci int, learnt *sesshist.ID) (*server.Server, error) {
 		}
 	}
 	if learnt != nil {
-		if err := s.VerifNewClient("c0"); err != nil {
-			return nil, err
-		}
 		p := &spb.SessionParameters{Redundancy: spb.SessionParameters_SINGLE_PRIMARY, Persistence: spb.SessionParameters_PRESERVE}
-		if _, err := s.VerifCheckParams("c0", p, false); err != nil {
-			return nil, err
+		for _, c := range []string{"c0", "c1"} {
+			if err := s.VerifNewClient(c); err != nil {
+				return nil, err
+			}
+			if _, err := s.VerifCheckParams(c, p, false); err != nil {
+				return nil, err
+			}
+			if err := s.VerifUpdateParams(c, p); err != nil {
+				return nil, err
+			}
 		}
-		if err := s.VerifUpdateParams("c0", p); err != nil {
-			return nil, err
-		}
+		// The highest learnt id is the maximum of a short announcement HISTORY, not of a single announcement: the
+		// primary announces the id, then re-announces a lower one, then another session announces a lower one
+		// (none of which may lower what the server has learnt).
 		if _, err := s.VerifRunElection("c0", learnt.Proto()); err != nil {
 			return nil, err
 		}
+		if lower := lowerID(*learnt); lower != nil {
+			if _, err := s.VerifRunElection("c0", lower.Proto()); err != nil {
+				return nil, err
+			}
+			if _, err := s.VerifRunElection("c1", lower.Proto()); err != nil {
+				return nil, err
+			}
+		}
 	}
 	return s, nil
+}
+
+// lowerID returns a non-zero id below id (nil if there is none).
+func lowerID(id sesshist.ID) *sesshist.ID {
+	switch {
+	case id.Lo > 1:
+		return &sesshist.ID{Hi: id.Hi, Lo: id.Lo - 1}
+	case id.Hi > 0:
+		return &sesshist.ID{Hi: id.Hi - 1, Lo: ^uint64(0)}
+	}
+	return nil
 }
 
 func stateOf(s *server.Server) (*ribx.Model, string) {
